@@ -136,6 +136,18 @@ def install_gates():
 
 
 FILES = {"f1": b"one\n", "f2": b"two, shared by every writer\r\n", "f3": b"three\x00", "f4": b""}
+# "big" schedules: the same files padded beyond the 1 MiB threshold above which build() hashes a directory's files in its
+# own thread pool (sizes far apart, so that the pool does not finish them in listing order)
+BIG_PAD = {"f1": 6 << 20, "f2": (1 << 20) + 200_000, "f3": 3 << 20, "f4": 0}
+
+
+def content(f, big=False):
+    if big and BIG_PAD[f]:
+        unit = b"%s padding 0123456789 abcdefghijklmnopqrstuvwxyz\n" % f.encode()
+        return FILES[f] + (unit * (BIG_PAD[f] // len(unit) + 1))[: BIG_PAD[f]]
+    return FILES[f]
+
+
 # writer i stages {f_i, f2, f4}: f2 (and the empty f4) are shared
 REQ = {1: ["f1", "f2", "f4"], 2: ["f2", "f3", "f4"], 3: ["f1", "f3", "f2"]}
 
@@ -218,7 +230,7 @@ def main():
             os.makedirs(d)
             for f in REQ[w]:
                 with open(os.path.join(d, f + ".bin"), "wb") as fh:
-                    fh.write(FILES[f])
+                    fh.write(content(f, sc.get("big")))
         SCHED = Sched(range(1, nw + 1))
         outcome = {}
         del errtypes[:]
